@@ -1,6 +1,7 @@
 #!/bin/sh
 # full build + manifest validation before committing
-cd /verif && ./check --setup 2>&1 | grep -E "error|✖|setup done" | head -5
+cd /verif && python3 tools/mkmanifest.py >/dev/null && python3 tools/mkdesign.py >/dev/null
+./check --setup 2>&1 | grep -E "error|✖|setup done" | head -5
 python3-vt - <<'PY'
 import json,jsonschema,glob
 jsonschema.validate(json.load(open('/verif/MANIFEST.json')),json.load(open('/root/.vp/MANIFEST.schema.json')))
